@@ -303,6 +303,11 @@
 
 #![cfg_attr(feature = "cargo-clippy", allow(clippy::inline_always))]
 
+// Verification hooks (off by default; see src/verif_hooks.rs).
+#[cfg(feature = "multiqueue2_verif")]
+#[doc(hidden)]
+pub mod verif_hooks;
+
 mod alloc;
 mod atomicsignal;
 mod broadcast;
